@@ -934,7 +934,7 @@ func c10r5(c *Ctx) {
 	const rule = "C10-R5"
 	c.Rule(rule, "destination side: no rejection decided by the content of a forwarded argument", 2)
 	regs := c.P.RegByName()
-	for _, name := range []string{"ESDTTransfer", "ESDTNFTTransfer", "SetUserName"} {
+	for _, name := range []string{"ESDTTransfer", "ESDTNFTTransfer", "MultiESDTNFTTransfer", "SetUserName"} {
 		r, ok := regs[name]
 		if !ok || r.Entry == nil {
 			c.Anchor(rule, "registration of "+name)
@@ -948,6 +948,11 @@ func c10r5(c *Ctx) {
 			}
 			k := f.Key()
 			// argument content: "**IN.VMInput.Arguments[k]" outside of len(…)
+			if name == "MultiESDTNFTTransfer" {
+				// the announced count against the list's length: the sender side announces the number of entries it ships
+				// (C01-R3 / R4), so these tests hold for every message it emits
+				k = strings.ReplaceAll(k, "Uint64(bigBytes(**"+argsT+"0]))", "n")
+			}
 			if strings.Contains(k, "*"+argsT) {
 				return k // an element of the arguments (its bytes or its length); len(Arguments) itself is the count
 			}
@@ -995,9 +1000,20 @@ func c10r5(c *Ctx) {
 				// the branch that decided this exit
 				blk := ret.Block()
 				for _, pb := range blk.Preds {
+					hit := false
 					for _, f := range e.EdgeFacts()[edge{pb, blk}] {
 						if k := contentOf(f); k != "" {
+							hit = true
 							bad = append(bad, fmt.Sprintf("%s at %s decided by %s", e.Fn.Name(), c.P.InstrPos(ret), k))
+						}
+					}
+					// a test the fact language does not render (a set lookup, a helper's verdict): does the tested value depend on
+					// the bytes of an argument element?
+					if !hit && len(pb.Instrs) > 0 {
+						if iff, ok := pb.Instrs[len(pb.Instrs)-1].(*ssa.If); ok && !isErrTest(iff.Cond) {
+							if leaf := argElementLeaf(e, iff.Cond, argsT, name == "MultiESDTNFTTransfer", 0, map[ssa.Value]bool{}); leaf != "" {
+								bad = append(bad, fmt.Sprintf("%s at %s decided by a test on %s", e.Fn.Name(), c.P.InstrPos(ret), leaf))
+							}
 						}
 					}
 				}
@@ -1017,4 +1033,56 @@ func c10r5(c *Ctx) {
 				Expected: "destination-side rejections depend on the argument count, on failing calls and on the destination's state only"})
 		}
 	}
+}
+
+// isErrTest: `err != nil` / `err == nil` on an error value (a failing call is a legitimate reason to refuse).
+func isErrTest(v ssa.Value) bool {
+	bo, ok := v.(*ssa.BinOp)
+	if !ok || !(bo.Op == token.NEQ || bo.Op == token.EQL) {
+		return false
+	}
+	return isNilConst(bo.Y) && bo.X.Type().String() == "error" || isNilConst(bo.X) && bo.Y.Type().String() == "error"
+}
+
+// argElementLeaf: the value is computed from the bytes (or the length) of an element of the call's argument list; returns
+// the term of such a leaf. For the multi-transfer the announced count Arguments[0] does not count (see contentOf).
+func argElementLeaf(e *Env, v ssa.Value, argsT string, skipCount bool, depth int, seen map[ssa.Value]bool) string {
+	if depth > 12 || seen[v] {
+		return ""
+	}
+	seen[v] = true
+	t := e.Term(v)
+	if i := strings.Index(t, "*"+argsT); i >= 0 {
+		if !(skipCount && !strings.Contains(strings.ReplaceAll(t, "*"+argsT+"0]", ""), "*"+argsT)) {
+			return t
+		}
+	}
+	switch x := v.(type) {
+	case *ssa.Parameter:
+		if a, pe := e.actual(x); a != nil {
+			return argElementLeaf(pe, a, argsT, skipCount, depth+1, seen)
+		}
+		return ""
+	case *ssa.Call:
+		if x.Type().String() == "error" {
+			return ""
+		}
+	case *ssa.Extract:
+		if call, ok := x.Tuple.(*ssa.Call); ok && call.Call.IsInvoke() {
+			return "" // what a dependency returned: state, not argument content
+		}
+	}
+	in, ok := v.(ssa.Instruction)
+	if !ok {
+		return ""
+	}
+	for _, op := range in.Operands(nil) {
+		if *op == nil {
+			continue
+		}
+		if leaf := argElementLeaf(e, *op, argsT, skipCount, depth+1, seen); leaf != "" {
+			return leaf
+		}
+	}
+	return ""
 }
